@@ -13,8 +13,8 @@ theorem pm_res (acc : Annotation) (dm : Option (Int × Bool)) (c : Char) (t : Li
     parseMiddle acc dm (c :: t) = parseMiddle { acc with seq := acc.seq ++ [c] } dm t := by
   rw [parseMiddle.eq_def]; simp [hc]
 
-theorem pm_mods (plus : Plus) (acc : Annotation) (dm : Option (Int × Bool)) (l : List Mod) (hne : l ≠ [])
-    (hl : l.all (canonMod '[' ']') = true) (t : List Char) (ht : MidStop t) :
+theorem pm_mods (plus : Plus) (acc : Annotation) (hseq : acc.seq ≠ []) (dm : Option (Int × Bool)) (l : List Mod)
+    (hne : l ≠ []) (hl : l.all (canonMod '[' ']') = true) (t : List Char) (ht : MidStop t) :
     parseMiddle acc dm (serializeMods '[' ']' plus l ++ t) = parseMiddle (addInternal acc l) dm t := by
   cases l with
   | nil => exact absurd rfl hne
@@ -25,7 +25,7 @@ theorem pm_mods (plus : Plus) (acc : Annotation) (dm : Option (Int × Bool)) (l 
     simp only [List.cons_append, List.append_assoc] at h2 ⊢
     rw [parseMiddle.eq_def]
     have hA : isAA '[' = false := by decide
-    simp [hA]
+    simp [hA, hseq]
     split
     · rename_i e he; rw [h2] at he; cases he
     · rename_i ms' rest' hb
@@ -43,14 +43,17 @@ theorem pm_amb (acc : Annotation) (st : Int) (b : Bool) (t : List Char) :
   have hA : isAA '?' = false := by decide
   simp [hA]
 
-theorem pm_close_none (acc : Annotation) (st : Int) (amb : Bool) (t : List Char) (ht : t.head? ≠ some '[') :
+theorem pm_close_none (acc : Annotation) (st : Int) (hst : st ≠ Int.ofNat acc.seq.length) (amb : Bool) (t : List Char)
+    (ht : t.head? ≠ some '[') :
     parseMiddle acc (some (st, amb)) (')' :: t) =
       parseMiddle (addInterval acc ⟨st, Int.ofNat acc.seq.length, amb, none⟩) none t := by
   rw [parseMiddle.eq_def]
   have hA : isAA ')' = false := by decide
-  simp [hA, ht]
+  have hst' : ¬ st = (acc.seq.length : Int) := by simpa [Int.ofNat_eq_natCast] using hst
+  simp [hA, ht, hst']
 
-theorem pm_close_mods (plus : Plus) (acc : Annotation) (st : Int) (amb : Bool) (l : List Mod) (hne : l ≠ [])
+theorem pm_close_mods (plus : Plus) (acc : Annotation) (st : Int) (hst : st ≠ Int.ofNat acc.seq.length) (amb : Bool)
+    (l : List Mod) (hne : l ≠ [])
     (hl : l.all (canonMod '[' ']') = true) (t : List Char) (ht : MidStop t) :
     parseMiddle acc (some (st, amb)) (')' :: (serializeMods '[' ']' plus l ++ t)) =
       parseMiddle (addInterval acc ⟨st, Int.ofNat acc.seq.length, amb, some l⟩) none t := by
@@ -62,26 +65,27 @@ theorem pm_close_mods (plus : Plus) (acc : Annotation) (st : Int) (amb : Bool) (
     have hh : (serializeMods '[' ']' plus (m :: ms) ++ t).head? = some '[' := serializeMods_head _ _ _ _ _ _
     rw [parseMiddle.eq_def]
     have hA : isAA ')' = false := by decide
-    simp [hA, hh]
+    have hst' : ¬ st = (acc.seq.length : Int) := by simpa [Int.ofNat_eq_natCast] using hst
+    simp [hA, hh, hst']
     split
     · rename_i e he; rw [h2] at he; cases he
     · rename_i ms' rest' hb
       rw [h2] at hb; cases hb; rfl
 
-theorem pm_cterm (plus : Plus) (acc : Annotation) (dm : Option (Int × Bool)) (l : List Mod)
+theorem pm_cterm (plus : Plus) (acc : Annotation) (l : List Mod) (hne : l ≠ [])
     (hl : l.all (canonMod '[' ']') = true) (t : List Char) (ht : MidStop t) :
-    parseMiddle acc dm ('-' :: (serializeMods '[' ']' plus l ++ t)) =
+    parseMiddle acc none ('-' :: (serializeMods '[' ']' plus l ++ t)) =
       .ok ({ acc with cterm := addMods acc.cterm l }, t) := by
   have h2 := parseMods_serialize '[' ']' (by decide) (by decide) (by decide) (by decide) (by decide) plus l
     hl t ht.1 ht.2
   rw [parseMiddle.eq_def]
   have hA : isAA '-' = false := by decide
-  simp [hA, h2]
+  simp [hA, h2, hne]
 
-theorem pm_stop (acc : Annotation) (dm : Option (Int × Bool)) (t : List Char)
-    (ht : t = [] ∨ ∃ c r, t = c :: r ∧ (c = '/' ∨ c = '+')) : parseMiddle acc dm t = .ok (acc, t) := by
+theorem pm_stop (acc : Annotation) (t : List Char)
+    (ht : t = [] ∨ ∃ c r, t = c :: r ∧ (c = '/' ∨ c = '+')) : parseMiddle acc none t = .ok (acc, t) := by
   rcases ht with h | ⟨c, r, h, hc⟩
-  · subst h; rw [parseMiddle.eq_def]
+  · subst h; rw [parseMiddle.eq_def]; rfl
   · subst h
     rw [parseMiddle.eq_def]
     have hA : isAA c = false := by rcases hc with h | h <;> subst h <;> decide
@@ -315,12 +319,12 @@ theorem marks_step (plus : Plus) (n i : Int) (acc : Annotation) (hlen : Int.ofNa
         cases hm : iv.mods with
         | none =>
           simp only [optMods, List.nil_append]
-          rw [pm_close_none _ _ _ _ hrest'.2, ← hm, hiv]
+          rw [pm_close_none _ _ (by rw [hlen]; omega) _ _ hrest'.2, ← hm, hiv]
         | some l =>
           rw [hm] at h4
           obtain ⟨hne, hall⟩ := canonOptMods_some _ _ _ h4
           rw [show optMods '[' ']' plus (some l) = serializeMods '[' ']' plus l from rfl,
-            pm_close_mods plus _ _ _ l hne hall _ hrest', ← hm, hiv]
+            pm_close_mods plus _ _ (by rw [hlen]; omega) _ l hne hall _ hrest', ← hm, hiv]
       have ht : canonIntervalList n i t = true := by rw [← hs]; exact h5
       have hlen2 : Int.ofNat (addInterval acc iv).seq.length = i := by simpa [addInterval] using hlen
       obtain ⟨dm', hp, hst'⟩ := marks_closed plus n i (addInterval acc iv) hlen2 t ht rest
@@ -385,12 +389,12 @@ theorem marks_final (plus : Plus) (n : Int) (acc : Annotation) (hlen : Int.ofNat
       cases hm : iv.mods with
       | none =>
         simp only [optMods, List.nil_append]
-        rw [pm_close_none _ _ _ _ hrest.2, ← hm, hiv]
+        rw [pm_close_none _ _ (by rw [hlen]; omega) _ _ hrest.2, ← hm, hiv]
       | some l =>
         rw [hm] at h4
         obtain ⟨hne, hall⟩ := canonOptMods_some _ _ _ h4
         rw [show optMods '[' ']' plus (some l) = serializeMods '[' ']' plus l from rfl,
-          pm_close_mods plus _ _ _ l hne hall _ hrest, ← hm, hiv]
+          pm_close_mods plus _ _ (by rw [hlen]; omega) _ l hne hall _ hrest, ← hm, hiv]
     simp only [List.cons_append]
     rw [hclose]
     congr 1
@@ -503,7 +507,7 @@ theorem parseMiddle_residues (plus : Plus) (a : Annotation) (n : Int) (suf : Lis
       · subst hk
         simp only [↓reduceIte]
         have hne : ms ≠ [] := by intro h; subst h; simp at g3
-        rw [show optMods '[' ']' plus (some ms) = serializeMods '[' ']' plus ms from rfl, pm_mods plus _ _ ms hne g4 _ hR]
+        rw [show optMods '[' ']' plus (some ms) = serializeMods '[' ']' plus ms from rfl, pm_mods plus _ (by simp) _ ms hne g4 _ hR]
         have hint : (addInternal { acc with seq := acc.seq ++ [c], intervals := optL Lpre' } ms).internal =
             optL (Dpre ++ [(k, ms)]) := by
           simp only [addInternal]
